@@ -286,6 +286,11 @@ func (m *MockTableHandler) Create(data map[string]interface{}) map[string]interf
 	m.db.mu.Lock()
 	defer m.db.mu.Unlock()
 
+	// A null argument arrives as a nil map, which cannot be written to
+	if data == nil {
+		data = make(map[string]interface{})
+	}
+
 	// Auto-generate ID if not provided
 	if _, ok := data["id"]; !ok {
 		data["id"] = int64(len(m.db.data[m.name]) + 1)
